@@ -35,6 +35,12 @@ def items(tier, seed):
                          job_open={'dur': [0, 2], 'cdelay': [1]},
                          top_open={'window': [1]},
                          nest_open={'critical': [True]}, k=1, bound=2)
+    yield from spaces.mk(['flat23', 'nest22'], force='each_job',
+                         fargs={'mods': [('out', 'raise_base'),
+                                         ('critical', True)]},
+                         job_open={'dur': [0, 2], 'cdelay': [1]},
+                         top_open={'window': [1]},
+                         nest_open={'critical': [True]}, k=1, bound=2)
     yield from spaces.mk(['flat4'], th, force='each_job',
                          fargs={'mods': crit['mods']},
                          job_open={'dur': [0, 2], 'cdelay': [1]},
